@@ -154,8 +154,14 @@ def family_cross(tier, seed, n=None):
             vars_[vn] = {"w": w}
             lo, hi = 0, (1 << w) - 1
             cp = {"name": "cp%d" % i, "var": vn}
-            kind = rnd.choice(["auto", "bins", "bins"])
-            if kind == "auto":
+            kind = rnd.choice(["auto", "bins", "bins", "wild"])
+            if kind == "wild":
+                # wildcard bins in a crossed coverpoint: their hit markers feed the cross
+                m1 = rnd.randrange(1, 1 << w)
+                v1 = rnd.randrange(1 << w) & m1
+                cp["bins"] = [{"name": "w0", "kind": "wild", "pats": [[v1, m1]]},
+                              {"name": "w1", "kind": "wild", "pats": [[(v1 ^ m1) & m1, m1]]}]
+            elif kind == "auto":
                 cp["abm"] = rnd.choice([2, 64])
             else:
                 parts = carve(rnd, lo, hi, 2)
